@@ -1,5 +1,6 @@
 import Nervus.Driver.Util
 import Nervus.Model.BackupLTS
+import Nervus.Model.Generated.BackupOrder
 /-!
   `backup` stream (C29): drives `Nervus.BackupLTS.step` with the op lines; `restore` prints what
   `recover` makes of the copied pair; spec-out = the contents of the source inside the backup window.
@@ -34,6 +35,10 @@ def runL (s : BackupLTS.State) : List Label → BackupLTS.State
     | some s' => runL s' ls
     | none => runL s ls
 
+def iterTx (s : BackupLTS.State) : Nat → BackupLTS.State
+  | 0 => s
+  | n + 1 => iterTx (runL s [.cW, .cI]) n
+
 def forget (s : BackupLTS.State) : BackupLTS.State := runL s [.bForget]
 
 def triggers (s : BackupLTS.State) : String :=
@@ -48,6 +53,35 @@ def step (st : St) (ws : List String) : St × String × String × String :=
   match ws with
   | ["tx"] => ({ st with m := runL st.m [.cW, .cI] }, "ok", "ok", "")
   | ["compact"] => ({ st with m := runL st.m [.kP, .kS, .kM] }, "ok", "ok", "")
+  | ["restore_over", how] =>
+    match st.m.bk with
+    | .done c0 c1 pf0 w1 =>
+      if st.m.mode != .idle then (st, "bad-op", "-", "") else
+      -- the source's handle is closed (checkpoint_on_close may rewrite the log) or just dropped
+      let src := if how == "close" then runL st.m [.close] else st.m
+      let (pfR, wR) := restoreOver Generated.restoreReplacesContents (some (src.pf, src.wal)) (pf0, w1)
+      let alts := (List.range (c1 - c0 + 1)).map (fun d => specTok st.m.hasIndex (c0 + d))
+      match recover pfR wR with
+      | some v =>
+        -- reopened: replay has completed the node table
+        let m' := { src with pf := { pfR with nodes := max pfR.nodes wR.txs }, wal := wR, closed := false, mode := .idle }
+        ({ st with m := m' }, tok v, "/".intercalate alts, if alts.contains (tok v) then "" else triggers st.m)
+      | none => ({ st with ready := false }, "open-failed", "/".intercalate alts, triggers st.m)
+    | _ => (st, "no-backup", "-", "")
+  | ["restore_other", k, comp] =>
+    match st.m.bk, k.toNat? with
+    | .done c0 c1 pf0 w1, some k =>
+      -- the other database: k uniform transactions, optionally compacted, closed
+      let o0 := iterTx (BackupLTS.init false) k
+      let o1 := if comp == "compact" then runL o0 [.kP, .kS, .kM] else o0
+      let o := runL o1 [.close]
+      let (pfR, wR) := restoreOver Generated.restoreReplacesContents (some (o.pf, o.wal)) (pf0, w1)
+      let alts := (List.range (c1 - c0 + 1)).map (fun d => specTok st.m.hasIndex (c0 + d))
+      let out := match recover pfR wR with
+        | some v => tok v
+        | none => "open-failed"
+      (st, out, "/".intercalate alts, if alts.contains out then "" else triggers st.m)
+    | _, _ => (st, "no-backup", "-", "")
   | ["close_reopen"] => ({ st with m := runL st.m [.close, .reopen] }, "ok", "ok", "")
   | "source" :: _ => let t := specTok st.m.hasIndex st.m.wal.txs; (st, t, t, "")
   | ["backup"] =>
